@@ -5,7 +5,7 @@
    object keys (tile paths, staging paths) are injective; it is discharged here by a counting
    invariant (every leaf list in the world is at most as long as the number of events so far).
    No assumption on the hash function is needed. *)
-From SL Require Import Base.BytesProofs Merkle.TilesProofs Ctlog.Model Ctlog.Spec Ctlog.Inv Ctlog.InvStep
+From SL Require Import Base.BytesProofs Merkle.TilesProofs Ctlog.Model Ctlog.Recompute Ctlog.Spec Ctlog.Inv Ctlog.InvStep
   Ctlog.Theorems Ctlog.Theorems2 Ctlog.Inv3 Ctlog.Inv3Step.
 From Coq Require Import ZifyN ZifyNat ZifyBool.
 Open Scope N_scope.
@@ -395,6 +395,11 @@ Proof.
     eapply ibound_mono with (k := k); [lia|]. pose proof (B2 _ _ G) as Hx.
     unfold ibound in *. cbn [i_pc i_leaves i_pool i_inseq i_rctx]. exact Hx.
   - destruct o; cbn [fst]; eapply Bound_same; eauto.
+  - destruct (get_inst (w_insts w) i) as [x|] eqn:G; [|exact SAME].
+    destruct (step_recompute_spec sha w i x key lim) as [E|(p & ls & c1 & why & _ & _ & _ & E)]; rewrite E; [exact SAME|].
+    match goal with |- Bound _ (set_i w i ?X) => change (Bound (S k) (fst (set_i w i X, @nil obs))); bupd i X end.
+    eapply ibound_mono with (k := k); [lia|]. pose proof (B2 _ _ G) as Hx.
+    unfold ibound in *. cbn [i_pc i_leaves i_pool i_inseq i_rctx set_cache]. exact Hx.
 Qed.
 
 Lemma Bound_small k w : Bound k w -> N.of_nat k < n63 -> Small w.
